@@ -280,6 +280,71 @@ func (s *Solver) CheckModel(vars []*Term, extra ...*Term) (string, map[string]ui
 	return r, m
 }
 
+// EvalTerm returns some value the term can take under the current assertion stack.
+func (s *Solver) EvalTerm(t *Term) (uint64, bool) {
+	nerr := len(s.Errors)
+	s.Push()
+	defer s.Pop()
+	s.define(t)
+	if r := s.Check(); r != "sat" || len(s.Errors) > nerr {
+		return 0, false
+	}
+	probe := &Term{op: "var", name: "\x00eval", sort: t.sort}
+	_ = probe
+	m := s.getValuesRef([]string{ref(t)})
+	if m == nil {
+		return 0, false
+	}
+	return m[0], true
+}
+
+func (s *Solver) getValuesRef(refs []string) []uint64 {
+	s.send("(get-value (" + strings.Join(refs, " ") + "))")
+	var buf strings.Builder
+	depth := 0
+	started := false
+	for {
+		l, ok := s.readLine()
+		if !ok {
+			s.Errors = append(s.Errors, "solver died in get-value")
+			s.restart()
+			return nil
+		}
+		if strings.HasPrefix(l, "(error") {
+			s.Errors = append(s.Errors, l)
+			return nil
+		}
+		for _, c := range l {
+			if c == '(' {
+				depth++
+				started = true
+			} else if c == ')' {
+				depth--
+			}
+		}
+		buf.WriteString(l + " ")
+		if started && depth == 0 {
+			break
+		}
+	}
+	sx := parseSexp(buf.String())
+	if sx == nil || len(sx.list) != len(refs) {
+		return nil
+	}
+	out := make([]uint64, len(refs))
+	for i, pair := range sx.list {
+		if len(pair.list) != 2 {
+			return nil
+		}
+		v, ok := sexpValue(pair.list[1])
+		if !ok {
+			return nil
+		}
+		out[i] = v
+	}
+	return out
+}
+
 func (s *Solver) getValues(vars []*Term) map[string]uint64 {
 	m := map[string]uint64{}
 	if len(vars) == 0 {
